@@ -58,11 +58,18 @@ func debugDump(w *World, what string) {
 			d(w)
 			return
 		}
+		for pre, d := range extraDumpsPrefix {
+			if strings.HasPrefix(what, pre) {
+				d(w, strings.TrimPrefix(what, pre))
+				return
+			}
+		}
 		fmt.Println("unknown dump")
 	}
 }
 
 var extraDumps = map[string]func(w *World){}
+var extraDumpsPrefix = map[string]func(w *World, arg string){}
 
 type stdoutWriter struct{}
 
